@@ -112,7 +112,14 @@ int main(int argc, char** argv)
                             };
                             // the callable reaches modify() as a plain lambda, as an rvalue of a value-category-sensitive
                             // functor, or as an lvalue of one (which the caller may use again afterwards)
-                            if (a.id % 4 == 3) lr.modify(memoizing);
+                            // a callable whose result modify() has no use for: whatever it returns (here something that converts
+                            // to false), it was applied, and it is applied to both copies
+                            auto returning = [&body](Cell& c) -> int {
+                                body(c);
+                                return 0;
+                            };
+                            if (a.id % 5 == 4) lr.modify(returning);
+                            else if (a.id % 4 == 3) lr.modify(memoizing);
                             else if (a.id % 3 == 0) lr.modify(body);
                             else if (a.id % 3 == 1) lr.modify(vrf::one_shot(body));
                             else {
